@@ -54,7 +54,7 @@ def run(rep, tier):
     rep.note("entries", sorted(f.path for f in entries))
     rep.note("constructors_exempt", sorted(f.path for f in cand if C.receiver_kind(f) not in ("shared", "mut")))
 
-    rep.rule("R06.1", "admission: gate acquire -> mutability/lifecycle check dominate every effect; failure edge reaches no effect", floor=18)
+    rep.rule("R06.1", "admission: gate acquire -> mutability/lifecycle check dominate every effect; failure edge reaches no effect", floor=25)
     rep.rule("R06.2", "cancel guard armed at every suspension point with an effect in flight or between two effects (shared-handle async mutators)", floor=11)
     rep.rule("R06.3", "Collection.lifecycle writes: allowed constant transitions only; ACTIVE never re-created; CLOSED/DELETED stores on the Ok edge", floor=5)
 
@@ -84,6 +84,12 @@ def run(rep, tier):
             rep.ob("R06.1", "gate|%s" % name, ok,
                    "operation_gate acquisition must dominate every effect site (effects: %s)" % ", ".join(
                        sorted({e.name for e in evs}))[:300], f.file + ":%d" % f.line)
+            # the lease must still be held at every effect (close/delete drain by taking the gate exclusively)
+            gins, gouts = core.guard_flow(body, [a for (a, _, _) in acqs], r"tokio::sync::rwlock::owned_(read|write)_guard::OwnedRwLock(Read|Write)Guard")
+            notheld = [e for e in evs if not gins.get(e.block) and not gins.get(e.call_block)]
+            rep.ob("R06.1", "gate-held|%s" % name, not notheld,
+                   "the operation_gate guard is released before: %s" % ", ".join("%s (line %d)" % (e.name.rsplit("::", 1)[1], e.line) for e in notheld),
+                   f.file + ":%d" % f.line)
             # checks must come after an acquire
             post_checks = {b for b in check_blocks if any(body.dominates(a, b) or a == b for a in acq_blocks)}
             if not post_checks and own_transition:
